@@ -160,4 +160,23 @@ theorem mkCell_ok (r : Region) (n : List Nat) (hn : n.length = r.ndim)
   rw [if_neg c1, c2, c3, c4, c5, c6, toLower_empty]
   simp
 
+/-- … and the constructor's final `n >= 1` test passes as well -/
+theorem mkCellNow_ok (r : Region) (n : List Nat) (hn : n.length = r.ndim)
+    (hr : ∀ a, a < r.ndim → r.lo a < r.hi a) (hpos : ∀ a, a < r.ndim → 0 < n.getD a 0) :
+    mkCellNow? r (tab r.ndim fun a => r.edge a / (n.getD a 0 : Rat))
+      = .ok { region := r, n := n, bc := "", subs := [] } := by
+  unfold mkCellNow?
+  rw [mkCell_ok r n hn hr hpos]
+  have h0 : n.any (fun k => decide (k < 1)) = false := by
+    rw [List.any_eq_false]
+    intro x hx
+    obtain ⟨a, ha, rfl⟩ := List.getElem_of_mem hx
+    have := hpos a (hn ▸ ha)
+    rw [List.getD_eq_getElem?_getD, List.getElem?_eq_getElem ha] at this
+    simp only [Option.getD_some] at this
+    simp; omega
+  show (if n.any (fun k => decide (k < 1)) = true then _ else _) = _
+  rw [h0]
+  rfl
+
 end DFV.C17
